@@ -238,6 +238,40 @@ func cfCalls(sc *Scenario, toks []cfTok, inner func(string, []SV, *symEval, *sym
 					return SV{K: "slice", Desc: name, Len: &l, Cap: &l, Known: true, Nil: true}, true
 				}
 				return SV{K: "slice", Desc: name, Len: &l, Cap: &l, Known: true}, true
+			case "Args", "AllArgs":
+				// Args(targets ...*string): one argument per target, false if there are not enough;
+				// AllArgs: the same, and false too if arguments remain
+				if len(args) == 2 && args[1].Len != nil && args[1].Len.Known {
+					okAll := true
+					for i := int64(0); i < args[1].Len.N; i++ {
+						if !d.nextArg() {
+							okAll = false
+							break
+						}
+						if t, ok := lookupElem(st, args[1].Desc, i); ok && t.Desc != "" {
+							st.heap[t.Desc] = symStr(d.val())
+						} else {
+							return SV{}, false
+						}
+					}
+					if m == "AllArgs" && okAll {
+						if d.nextArg() {
+							d.prev()
+							okAll = false
+						}
+					}
+					return symBool(okAll), true
+				}
+				return SV{}, false
+			case "ScalarVal":
+				v := d.val()
+				if n, err := strconv.Atoi(v); err == nil {
+					return SV{K: "int", Known: true, N: int64(n), Desc: v, Dyn: "int"}, true
+				}
+				if b, err := strconv.ParseBool(v); err == nil {
+					return symBool(b), true
+				}
+				return symStr(v), true
 			case "Reset":
 				d.cursor, d.nesting = -1, 0
 				return symOpaque("reset"), true
